@@ -259,6 +259,20 @@ func (h *hist) scenario(n int) {
 		if ls == nil || !step() {
 			return
 		}
+		// The same lock-owner once more with new_lock_owner = TRUE
+		// and every sequence ID in order: 4.0 refuses it (and must
+		// not keep anything, not even a hold on the client), 4.1
+		// continues the existing lock state.
+		h.lock(c, lockParams{newOwner: true, openSid: os.sid, loKey: c.lockOwnerKey(0), fh: fhLeaf(os.leaf), rangeIdx: (ri + 1) % 3, write: h.chance(50), variant: "redundant-new-lock-owner"})
+		if !step() {
+			return
+		}
+		if c.ver == 1 {
+			h.unlock(c, ls.sid, fhLeaf(os.leaf), (ri+1)%3, 0, "valid")
+			if !step() {
+				return
+			}
+		}
 		if c.ver == 0 {
 			h.releaseLockOwner(c, ls.lo.key, "valid")
 		} else {
